@@ -1,12 +1,14 @@
 (* One entry point for the extracted driver and for cases.v: (tag arg) -> result. *)
 From Coq Require Import List NArith.
 Import ListNotations.
-Require Import Wire W_C18.
+Require Import Wire W_C18 W_C17 W_C15.
 Local Open Scope N_scope.
 
 Definition dispatch (v : val) : val :=
   match v with
   | VL [VN 1800; a] => run_c18_chunked a
   | VL [VN 1801; a] => run_c18_md5 a
+  | VL [VN 1700; a] => run_c17 a
+  | VL [VN 1500; a] => run_c15 a
   | _ => bad_input
   end.
